@@ -25,7 +25,13 @@ def run(ctx):
                 'and vs collections.Counter arithmetic. Non-trivial: both sides non-empty with a shared row.')
     ctx.assumptions += ['collections.Counter on tuples of hashable cells (hash consistent with ==)',
                         'cells are scalars or tuples (a list cell equal item-wise to a tuple cell is Comparable-equal but not ==)']
-    ctx.prove(['PetlProofs.Props.C08'], REQUIRED)
+    from translators import fingerprints as _fp
+    try:
+        _fpi = _fp.generate()
+        ctx.bridge('translator: fingerprints of the petl functions the hand-written models mirror (%d bodies)' % _fpi['names'], True)
+    except Exception as e:   # noqa
+        ctx.bridge('translator: source fingerprints extracted', False, repr(e))
+    ctx.prove(['PetlProofs.Props.C08', 'PetlProofs.Snapshot.C08'], REQUIRED + ['Petl.Snapshot.C08_sources_as_validated'])
     rng = ctx.rng
     n = 2500 if ctx.thorough() else 350
     jobs = []   # (name, line, thunk, oracle Counter or None, hdr expected, case)
